@@ -316,7 +316,7 @@ pub fn decode_agg_case(u: &mut Unstructured) -> Option<crate::props::c10::Case> 
     let mut steps = vec![];
     let input = |u: &mut Unstructured| -> Option<In> {
         Some(In {
-            word: u.int_in_range(0..=4u8).ok()?,
+            word: u.arbitrary().ok()?,
             n: u.int_in_range(0..=2u8).ok()?,
             total: u.arbitrary().ok()?,
             last: u.arbitrary().ok()?,
